@@ -39,14 +39,15 @@ BaseOpt(b) == IF Shape(b) = 2 THEN [DefaultOpt EXCEPT !.useDict = TRUE, !.crc = 
               ELSE [DefaultOpt EXCEPT !.crc = "good", !.codec = BaseCodec(b)]
 
 \* description with an optional page-header mutation on (column c, page k)
-Desc(b, pc, pk, hm) ==
+DescB(b, pc, pk, hm, bk, bm) ==
     [elements |-> BaseElems(b), createdBy |-> <<114, 101, 102>>, extras |-> FALSE, sty |-> DefaultStyle,
      rgs |-> [g \in 1..BaseGroups(b) |->
                 [numRows |-> IF Shape(b) = 3 THEN 4 ELSE 6,
                  cols |-> [c \in 1..Len(BaseLeaves(b)) |->
                              MkChunk(BaseLeaves(b)[c], BaseCont(b, c), BaseCuts(b, c),
                                      LET o == IF BaseLeaves(b)[c].type = 0 THEN [BaseOpt(b) EXCEPT !.useDict = FALSE] ELSE BaseOpt(b)
-                                     IN IF c = pc /\ g = 1 THEN [o EXCEPT !.hmutPage = pk, !.hmut = hm] ELSE o)]]]]
+                                     IN IF c = pc /\ g = 1 THEN [o EXCEPT !.hmutPage = pk, !.hmut = hm, !.bmutPage = bk, !.bmut = bm] ELSE o)]]]]
+Desc(b, pc, pk, hm) == DescB(b, pc, pk, hm, 99, [kind |-> "none"])
 NoMut == [kind |-> "none"]
 
 \* the k-th of n slices of a sequence
@@ -56,7 +57,7 @@ Take(seq, m) == SubSeq(seq, 1, IF Len(seq) < m THEN Len(seq) ELSE m)
 Init == st = [lvl |-> 0]
 Next == \/ st.lvl = 0 /\ st' \in [lvl : {1}, b : Bases]
         \/ st.lvl = 1 /\ st' \in [lvl : {2}, b : {st.b}, fam : {"int", "bin", "drop"}, k : 1..Slices]
-        \/ st.lvl = 1 /\ st' \in [lvl : {2}, b : {st.b}, fam : {"page"}, k : 1..Len(BaseLeaves(st.b))]
+        \/ st.lvl = 1 /\ st' \in [lvl : {2}, b : {st.b}, fam : {"page", "body"}, k : 1..Len(BaseLeaves(st.b))]
         \/ st.lvl = 1 /\ st' \in [lvl : {2}, b : {st.b}, fam : {"base"}, k : {1}]
 
 FooterMuts(tree, fam, fsize) ==
@@ -87,6 +88,25 @@ Emit == st.lvl = 2 =>
        THEN LET ms == Take(SliceOf(FooterMuts(tree, st.fam, Len(good)), st.k, Slices), PerSlice)
             IN PrintT(ToJson([fam |-> st.fam, b |-> st.b, k |-> st.k, data |-> lay.bytes,
                               footers |-> [i \in 1..Len(ms) |-> [m |-> MutName(ms[i]), fb |-> FooterBytes(Apply(tree, ms[i]), d.sty)]]]))
+       ELSE IF st.fam = "body"
+       THEN \* mutations of the UNCOMPRESSED bodies of column st.k (dictionary page = page 0, data pages 1, 2): every byte
+            \* replaced by every byte of a boundary alphabet, truncation at every byte (sizes in the header following / not)
+            LET c == st.k
+                ch == d.rgs[1].cols[c]
+                bodyOf(k) == IF k = 0 THEN PlainEncode(ch.type, ch.dict) ELSE PageBody(ch, ch.pages[k])
+                pagesK == (IF Len(ch.dict) > 0 THEN <<0>> ELSE <<>>) \o [k \in 1..Len(ch.pages) |-> k]
+                Alpha == <<0, 1, 2, 3, 8, 127, 128, 254, 255>>
+                mutsOf(k) == LET n == Len(bodyOf(k))
+                             IN Flatten([i \in 1..n |-> SelectSeq([a \in 1..Len(Alpha) |-> [kind |-> "sub", at |-> i, val |-> Alpha[a]]],
+                                                                  LAMBDA m : m.val # bodyOf(k)[i])])
+                                \o [i \in 1..n |-> [kind |-> "cut", at |-> i - 1, val |-> 0]]
+                                \o [i \in 1..n |-> [kind |-> "cutkeep", at |-> i - 1, val |-> 0]]
+                all == Flatten([j \in 1..Len(pagesK) |-> [i \in 1..Len(mutsOf(pagesK[j])) |-> [k |-> pagesK[j], m |-> mutsOf(pagesK[j])[i]]]])
+                ms == Take(SliceOf(all, 1, IF PerSlice >= Len(all) THEN 1 ELSE (Len(all) \div PerSlice) + 1), PerSlice)
+            IN PrintT(ToJson([fam |-> "page", b |-> st.b, k |-> c,
+                              files |-> [i \in 1..Len(ms) |->
+                                           [m |-> "body" \o ToString(ms[i].k) \o ToString(ms[i].m.kind) \o ToString(ms[i].m.at) \o "v" \o ToString(ms[i].m.val),
+                                            file |-> SerFile(DescB(st.b, c, 99, NoMut, ms[i].k, ms[i].m))]]]))
        ELSE \* page-header mutations of column st.k: every integer field of the header of page 1 and 2
             LET c == st.k
                 hdr == DataPage(d.rgs[1].cols[c], d.rgs[1].cols[c].pages[1], FALSE, d.sty).tree
